@@ -621,6 +621,17 @@ class AutoEvaluator(Evaluator):
             return F.sym("Ellipsis")
         if isinstance(node, ast.Constant) and isinstance(node.value, str):
             return F.sym(repr(node.value))
+        if isinstance(node, ast.JoinedStr):
+            # an f-string: an opaque text built from its literal pieces and the values of its fields
+            lit = "".join(v.value for v in node.values if isinstance(v, ast.Constant) and isinstance(v.value, str))
+            vals = []
+            for v in node.values:
+                if isinstance(v, ast.FormattedValue):
+                    x = self._ev(v.value)
+                    if is_unknown(x) or isinstance(x, tuple):
+                        return x if is_unknown(x) else Unknown("tuple in an f-string")
+                    vals.append(need(x))
+            return F.fn("fstr", repr(lit), *vals)
         if isinstance(node, ast.Compare) and len(node.ops) == 1:
             a, b = self._ev(node.left), self._ev(node.comparators[0])
             if is_unknown(a) or is_unknown(b) or isinstance(a, tuple) or isinstance(b, tuple):
